@@ -25,6 +25,7 @@ RUN = os.path.join(CACHE, "run")
 WV_DEBUG = os.path.join(TARGET, "debug", "wv")
 WV_RELEASE = os.path.join(TARGET, "release", "wv")
 MODEL_RUN = os.path.join(COQ, "extract", "model_run")
+MODEL_RUN_RELEASE = os.path.join(COQ, "extract", "model_run_release")
 EVIDENCE = os.path.join(VERIF, "evidence")
 KNOWN = os.path.join(VERIF, "known_findings.jsonl")
 
@@ -230,7 +231,8 @@ def run_cases(binary, cases, tag, timeout=900, shards=16):
         path = os.path.join(RUN, "%s.%d.cases" % (tag, s))
         with open(path, "w") as f:
             f.write("\n".join(part) + "\n")
-        p = subprocess.Popen([binary, path], stdout=subprocess.PIPE, stderr=subprocess.DEVNULL, env=ENV)
+        p = subprocess.Popen("ulimit -s unlimited 2>/dev/null || ulimit -s 1000000 2>/dev/null; exec %s %s" % (binary, path),
+                             shell=True, stdout=subprocess.PIPE, stderr=subprocess.DEVNULL, env=ENV)
         procs.append((p, len(part), path))
     out = []
     for p, cnt, path in procs:
